@@ -3,7 +3,8 @@ rulebook of the given hardware for one block (or the global level) holding VLAN-
 
 case = {"hw": "Huawei CE6870", "block": "interface GE1/0/1" | None,
         "old": [row | [row, [child rows]] ...], "new": [...]}
-result = {"rows": [[row, has_children], ...]}     patch rows in emitted order (inside the block)
+result = {"rows": [[row, [child rows]], ...]}      patch rows in emitted order (inside the block);
+                                                  a patch block (`vlan N` + its option rows) lists its rows
        | {"exc": "AssertionError:..."}
 """
 from types import SimpleNamespace
@@ -56,7 +57,16 @@ def one(case):
             if it.child is not None:
                 inner.extend(it.child.itms)
         items = inner
-    return {"rows": [[str(it.row), bool(it.child)] for it in items]}
+    rows = []
+    for it in items:
+        kids = []
+        if it.child:
+            for sub in it.child.itms:
+                if sub.child:
+                    return {"exc": "NestedPatchBlock:" + str(it.row)}
+                kids.append(str(sub.row))
+        rows.append([str(it.row), kids])
+    return {"rows": rows}
 
 
 main(lambda cases: [one(c) for c in cases])
